@@ -598,9 +598,9 @@ fn classify(e: Box<dyn std::any::Any + Send>) -> Caught {
     } else if e.is::<ScriptExhaustedMarker>() {
         Caught::Exhausted
     } else if let Some(s) = e.downcast_ref::<&str>() {
-        Caught::Panic(s.to_string())
+        Caught::Panic(crate::quire::one_line(s))
     } else if let Some(s) = e.downcast_ref::<String>() {
-        Caught::Panic(s.clone())
+        Caught::Panic(crate::quire::one_line(s))
     } else {
         Caught::Panic("panic".into())
     }
